@@ -1053,10 +1053,15 @@ def rel_matches(fact, opclass, left_leafs, right_leafs, either_order=True):
 
     def cls(o):
         return {'Lt': 'lt', 'Le': 'lt', 'Gt': 'gt', 'Ge': 'gt', 'Eq': 'eq', 'Ne': 'ne'}[o]
-    if set(left_leafs) <= la and set(right_leafs) <= lb:
+    fwd = set(left_leafs) <= la and set(right_leafs) <= lb
+    rev = set(left_leafs) <= lb and set(right_leafs) <= la
+    if fwd and rev and opclass not in ('any', 'eq', 'ne'):
+        # both operands contain both leaf sets: the orientation is ambiguous, no claim
+        return False
+    if fwd:
         if opclass == 'any' or cls(op) == opclass:
             return True
-    if either_order and set(left_leafs) <= lb and set(right_leafs) <= la:
+    if either_order and rev:
         if opclass == 'any' or cls(FLIP[op]) == opclass:
             return True
     return False
